@@ -728,15 +728,18 @@ func c05Combinators(p *Prog, r *Report) {
 		fc := p.Func("zerocopy", "", name)
 		info := fc.Info()
 		nKeys := 0
-		ast.Inspect(fc.Body, func(n ast.Node) bool {
-			kv, ok := n.(*ast.KeyValueExpr)
-			if !ok {
-				return true
+		// the result is put together once, as a literal or field by field
+		bvs := builtValues(fc, "Headroom")
+		if len(bvs) != 1 {
+			r.Fail(rule, "zerocopy."+name+":one-result", p.posStr(fc.Body.Pos()), fmt.Sprintf("undecided: the function puts together %d Headroom values, expected one", len(bvs)))
+			continue
+		}
+		for _, key := range []string{"Front", "Rear"} {
+			val, has := bvs[0].Fields[key]
+			if !has {
+				continue
 			}
-			key := kv.Key.(*ast.Ident).Name
-			if key != "Front" && key != "Rear" {
-				return true
-			}
+			kv := &ast.KeyValueExpr{Key: ast.NewIdent(key), Colon: val.Pos(), Value: val}
 			nKeys++
 			var fields []string
 			var bases []types.Object
@@ -768,8 +771,7 @@ func c05Combinators(p *Prog, r *Report) {
 				okForm := strings.HasPrefix(ns, "max(") && strings.Contains(ns, a+"."+key) && strings.Contains(ns, b+"."+key) && !strings.Contains(ns, " - ") && !strings.Contains(ns, " + ")
 				r.Check(okForm, rule, "zerocopy."+name+":"+key+":formula", p.posStr(kv.Pos()), "max of the two", "formula is "+ns+", expected the maximum of the two")
 			}
-			return true
-		})
+		}
 		r.Check(nKeys == 2, rule, "zerocopy."+name+":sets-both", p.posStr(fc.Body.Pos()), "sets Front and Rear", fmt.Sprintf("sets %d of Front/Rear", nKeys))
 	}
 	r.Floor(rule, 10)
